@@ -34,7 +34,6 @@ from typing import Any, Callable
 ROOT = os.path.dirname(os.path.dirname(os.path.abspath(__file__)))
 KNOWN_DIR = os.path.join(ROOT, "known_findings")
 MAX_SAMPLES = 6
-MAX_ROUNDS = 6  # collect-then-shrink rounds per hypothesis sub-check
 
 
 class Violation(Exception):
@@ -94,6 +93,8 @@ class Harness:
         self.known = [e for e in load_known(pid) if e.get("status") == "known"]
         self.run_excluded: set[str] = set()
         self._in_hyp = False
+        self._shrinking = False
+        self._want: str | None = None
         self.exhaustive: bool | None = None
         self.notes: list[str] = []
         self.t0 = time.time()
@@ -108,19 +109,25 @@ class Harness:
         return quick if self.quick else thorough
 
     def count(self, label: str, n: int = 1) -> None:
-        self.classes[label] += n
+        if not self._shrinking:
+            self.classes[label] += n
 
     def discard(self, label: str, n: int = 1) -> None:
-        self.discarded[label] += n
+        if not self._shrinking:
+            self.discarded[label] += n
 
     def inconclusive(self, label: str, n: int = 1) -> None:
-        self.inconc[label] += n
+        if not self._shrinking:
+            self.inconc[label] += n
 
     def exclude(self, label: str, n: int = 1) -> None:
-        self.excluded[label] += n
+        if not self._shrinking:
+            self.excluded[label] += n
 
     def case(self, recipe: Any, nontrivial: bool, label: str | None = None,
              distinct: bool = False, sample: Any = None) -> None:
+        if self._shrinking:
+            return
         self.evaluations += 1
         if label:
             self.classes[label] += 1
@@ -148,9 +155,14 @@ class Harness:
         sig = {k: str(v) for k, v in sig.items()}
         e = self.known_for(sig)
         if e is not None:
-            self.known_hits[e["id"]] += 1
+            if not self._shrinking:
+                self.known_hits[e["id"]] += 1
             return
         k = sigkey(sig)
+        if self._shrinking:
+            if k == self._want:
+                raise Violation(sig, recipe, detail)
+            return
         if self._in_hyp:
             if k in self.run_excluded:
                 return
@@ -163,68 +175,74 @@ class Harness:
 
     # ---- Hypothesis driver --------------------------------------------------------------
     def hyp(self, name: str, strategy: Any, body: Callable[[Any], None], max_examples: int,
-            seed_salt: int = 0, shrink_budget_s: float = 45.0) -> None:
-        """Run body(recipe) over `strategy` with collect-then-shrink.
+            seed_salt: int = 0, shrink_budget_s: float = 20.0) -> None:
+        """Run body(recipe) over `strategy` (collect-then-shrink, single pass).
 
         body reports through h.case / h.mismatch. A mismatch that is neither a known finding
-        nor already collected in this run raises Violation; Hypothesis shrinks it; the shrunk
-        recipe is recorded and its signature excluded for the following round."""
+        nor already collected in this run is caught here, its signature is excluded for the rest of
+        the run (so the search continues behind it), and the recipe is minimised by a deterministic,
+        time-bounded delta-debugger (vt.shrink) that keeps the signature fixed."""
         import hypothesis
         from hypothesis import HealthCheck, Phase, given, settings
+        from vt.shrink import shrink
 
         sett = settings(max_examples=max_examples, database=None, deadline=None,
                         derandomize=False, report_multiple_bugs=False,
                         suppress_health_check=[HealthCheck.too_slow, HealthCheck.data_too_large],
-                        phases=[Phase.generate, Phase.shrink], print_blob=False)
+                        phases=[Phase.generate], print_blob=False)
         seedv = (self.seed * 1000 + self.shard) * 131 + seed_salt
         self.sub_checks[name] += 0
-        for _round in range(MAX_ROUNDS):
-            state = {"first_fail": None, "best": None, "best_size": None}
 
-            def wrapped(recipe):
-                if state["first_fail"] is not None and \
-                        time.time() - state["first_fail"] > shrink_budget_s:
-                    # shrink budget used up: only the best example so far still fails
-                    if state["best"] is None or jdump(recipe) != state["best"]:
-                        return
-                try:
-                    body(recipe)
-                    self.sub_checks[name] += 1
-                except Violation as v:
-                    if state["first_fail"] is None:
-                        state["first_fail"] = time.time()
-                    size = len(jdump(recipe))
-                    if state["best_size"] is None or size <= state["best_size"]:
-                        state["best"], state["best_size"] = jdump(recipe), size
-                    state["last"] = v
-                    raise
-
-            test = hypothesis.seed(seedv)(sett(given(strategy)(wrapped)))
-            self._in_hyp = True
+        def fails_with(r, k):
+            """Does body(r) still report a mismatch with signature key k?"""
+            self._shrinking = True
+            self._want = k
             try:
-                test()
-                return
+                body(r)
+                return False
+            except Violation as v2:
+                return sigkey(v2.sig) == k
+            finally:
+                self._shrinking = False
+                self._want = None
+
+        def wrapped(recipe):
+            try:
+                body(recipe)
+                self.sub_checks[name] += 1
             except Violation as v:
                 k = sigkey(v.sig)
                 self.run_excluded.add(k)
-                size = len(jdump(v.recipe))
+                best, bv = v.recipe, v
+                if len(self.violations) < 40:
+                    try:
+                        jr = json.loads(jdump(recipe))
+                        if fails_with(jr, k):
+                            small = shrink(jr, lambda r: fails_with(r, k), shrink_budget_s)
+                            # re-run to get the detail text of the minimised recipe
+                            self._shrinking, self._want = True, k
+                            try:
+                                body(small)
+                            except Violation as v3:
+                                if sigkey(v3.sig) == k:
+                                    best, bv = v3.recipe, v3
+                            finally:
+                                self._shrinking, self._want = False, None
+                    except Exception as e:  # shrinking is best effort
+                        self.notes.append(f"shrink failed in {name}: {e!r:.200}")
+                size = len(jdump(best))
                 old = self.violations.get(k)
                 if old is None or size < old["size"]:
-                    self.violations[k] = {"signature": v.sig, "recipe": v.recipe,
-                                          "detail": v.detail[:4000], "size": size,
+                    self.violations[k] = {"signature": bv.sig, "recipe": best,
+                                          "detail": bv.detail[:4000], "size": size,
                                           "sub_check": name}
-            except hypothesis.errors.Flaky as f:  # pragma: no cover
-                v = state.get("last")
-                if v is None:
-                    raise
-                k = sigkey(v.sig)
-                self.run_excluded.add(k)
-                self.notes.append(f"flaky while shrinking {name}: {f!r:.200}")
-                self.violations.setdefault(k, {"signature": v.sig, "recipe": v.recipe,
-                                               "detail": v.detail[:4000],
-                                               "size": len(jdump(v.recipe)), "sub_check": name})
-            finally:
-                self._in_hyp = False
+
+        test = hypothesis.seed(seedv)(sett(given(strategy)(wrapped)))
+        self._in_hyp = True
+        try:
+            test()
+        finally:
+            self._in_hyp = False
 
     # ---- export / merge -----------------------------------------------------------------
     def export(self) -> dict:
